@@ -1,6 +1,8 @@
 package main
 
 import (
+	"golang.org/x/tools/go/packages"
+
 	"encoding/json"
 	"flag"
 	"fmt"
@@ -174,6 +176,9 @@ func runProperty(w *World, prop, tier, vdir string, start time.Time, writeBaseli
 		}
 		resultCache[key] = r
 		rs = append(rs, r)
+	}
+	if prop == "C13" {
+		rs = append(rs, portabilityResult(w))
 	}
 	quickT, fullT := 6*time.Second, 25*time.Second
 	if tier == "thorough" {
@@ -562,4 +567,35 @@ func cmdBaseline(args []string) int {
 	data, _ := json.MarshalIndent(out, "", " ")
 	os.WriteFile(filepath.Join(vdir, "expected_obligations.json"), data, 0o644)
 	return 0
+}
+
+// portabilityResult type-checks the whole module for 32-bit targets (int is
+// 32 bits wide there): one obligation per target, decided by go/types.
+func portabilityResult(w *World) *FnResult {
+	r := &FnResult{Name: "webp.module", Key: "", Props: []string{"C13"}, IsLemma: true}
+	for _, arch := range []string{"386", "arm"} {
+		o := &Obligation{Name: "webp.module:typecheck:GOARCH=" + arch, Kind: "lemma", Fn: "webp.module", PC: True, Cond: True, Solver: "go/types"}
+		cfg := &packages.Config{Mode: packages.NeedName | packages.NeedTypes | packages.NeedSyntax | packages.NeedTypesInfo | packages.NeedImports | packages.NeedDeps,
+			Dir: w.RepoDir, Env: append(os.Environ(), "GOFLAGS=-mod=mod", "GOPROXY=off", "GOARCH="+arch, "CGO_ENABLED=0")}
+		pkgs, err := packages.Load(cfg, "./...")
+		var errs []string
+		if err != nil {
+			errs = append(errs, err.Error())
+		}
+		packages.Visit(pkgs, nil, func(p *packages.Package) {
+			if strings.HasPrefix(p.PkgPath, modulePath) {
+				for _, e := range p.Errors {
+					errs = append(errs, e.Error())
+				}
+			}
+		})
+		if len(errs) == 0 {
+			o.Status = "unsat"
+		} else {
+			o.Status = "sat"
+			o.RawOut = strings.Join(errs, "\n")
+		}
+		r.Obls = append(r.Obls, o)
+	}
+	return r
 }
